@@ -1,6 +1,6 @@
 PROP = dict(level="exploration", parts=[
-    cxx("spline", "C12_spline", ninja=TOOLS, shards=(12, 14)),
-    py("resample", "C12_resample.py", ninja=CSG + ["csg_resample"], shards=(4, 2)),
+    cxx("spline", "C12_spline", ninja=TOOLS, shards=(12, 16)),
+    py("resample", "C12_resample.py", ninja=CSG + ["csg_resample"], shards=(8, 8)),
 ])
 TEXT = dict(engine="bsx", design_ref="DESIGN.md §3 C12",
    technique="exhaustive enumeration of small grids x ordinate vectors x spline type x boundary condition on the real spline classes (ASan/UBSan build) against relational oracles and a long-double reference spline; the real csg_resample executable over input tables x output grids x flag patterns",
